@@ -12,6 +12,12 @@ pub mod env {
     pub static mut DISK: [u8; DISK_SIZE] = [0u8; DISK_SIZE];
     /// number of sync_data calls and highest length that had reached the disk when sync_data was last called
     pub static mut SYNCS: u32 = 0;
+    /// ordering probe: the harness points this at the writer's published (flushed) offset; every write to the file and every
+    /// sync_data records the value published AT THAT MOMENT, so "publish only after flush and fsync" becomes checkable
+    pub static mut PUB_PTR: *const std::sync::atomic::AtomicU64 = std::ptr::null();
+    pub static mut PUB_AT_LAST_WRITE: u64 = 0;
+    pub static mut PUB_AT_LAST_SYNC: u64 = 0;
+    fn published_now() -> u64 { unsafe { if PUB_PTR.is_null() { 0 } else { (*PUB_PTR).load(std::sync::atomic::Ordering::SeqCst) } } }
 
     #[derive(Debug)]
     pub struct File;
@@ -36,10 +42,10 @@ pub mod env {
         pub fn write_all_at(&self, buf: &[u8], offset: u64) -> io::Result<()> {
             let o = offset as usize;
             if offset > DISK_SIZE as u64 || buf.len() > DISK_SIZE - o { return Err(io::Error::from(io::ErrorKind::WriteZero)); }
-            unsafe { DISK[o..o + buf.len()].copy_from_slice(buf); }
+            unsafe { DISK[o..o + buf.len()].copy_from_slice(buf); PUB_AT_LAST_WRITE = published_now(); }
             Ok(())
         }
-        pub fn sync_data(&self) -> io::Result<()> { unsafe { SYNCS += 1; } Ok(()) }
+        pub fn sync_data(&self) -> io::Result<()> { unsafe { SYNCS += 1; PUB_AT_LAST_SYNC = published_now(); } Ok(()) }
     }
     pub struct OpenOptions;
     impl OpenOptions {
